@@ -812,7 +812,7 @@ fn gen_trace(id: u64, rng: &mut Rng, tier: &str, out: &mut String) {
         }
     }
     // torn files
-    let mut budget: i64 = if thorough { 900 } else { 40 };
+    let mut budget: i64 = if thorough { 400 } else { 40 };
     let mut fkeys: Vec<(usize, u32)> = world.files.keys().cloned().collect();
     fkeys.sort();
     for (d, wid) in fkeys {
